@@ -134,7 +134,7 @@ def run(ctx):
         failures += afails
         lean["theorems"] = lean["theorems"] + aths
         lean["ok"] = lean["ok"] and all(t["ok"] for t in aths) and not afails
-        ctx.log(f"arith tie (Gen.blocksRange regenerated): {'ok' if not afails else 'NOT ok'}")
+        ctx.log(f"arith tie (Gen.* regenerated from the source): {'ok' if not afails else 'NOT ok'}")
     driver = vlib.lean_exe("core", "rudriver")
 
     ok_d, bin_d, log_d = vlib.go_build("rudefects")
